@@ -14,5 +14,27 @@ module Z :
 
   val add : coq_Z -> coq_Z -> coq_Z
 
+  val opp : coq_Z -> coq_Z
+
+  val sub : coq_Z -> coq_Z -> coq_Z
+
+  val mul : coq_Z -> coq_Z -> coq_Z
+
   val compare : coq_Z -> coq_Z -> comparison
+
+  val leb : coq_Z -> coq_Z -> bool
+
+  val ltb : coq_Z -> coq_Z -> bool
+
+  val eqb : coq_Z -> coq_Z -> bool
+
+  val max : coq_Z -> coq_Z -> coq_Z
+
+  val min : coq_Z -> coq_Z -> coq_Z
+
+  val pos_div_eucl : positive -> coq_Z -> coq_Z * coq_Z
+
+  val div_eucl : coq_Z -> coq_Z -> coq_Z * coq_Z
+
+  val modulo : coq_Z -> coq_Z -> coq_Z
  end
